@@ -70,6 +70,18 @@ func FirstUseMain(seed uint64) int {
 			}
 		}()
 	}
+	if r.Chance(1, 3) {
+		// before the concurrent first uses: one sequential request of each kind whose answer is an empty batch (a node
+		// that answers, but with nothing in it); the call fails, and nothing it left behind may make the later
+		// concurrent first uses unsafe
+		node.SetHook(func(info *simnode.ReqInfo) simnode.Action {
+			return simnode.Action{ElemErr: -1, RewriteBody: func(string) string { return "[]" }}
+		})
+		for _, fs := range plans {
+			cl.Get(context.Background(), url, glf.New(fs, nil, nil), 70, 2)
+		}
+		node.SetHook(nil)
+	}
 	time.Sleep(2 * time.Millisecond)
 	close(start)
 	wg.Wait()
